@@ -148,6 +148,10 @@ func drawHistory(c *RunCtx, g *Gen, refLen int, subject string) *bufHist {
 		parts = append(parts, fmt.Sprintf("ff(%d)", n))
 	default:
 		n := 4096 + t.Intn(4096)
+		if t.Chance(1, 12) {
+			// a long-lived send buffer: the frame starts beyond what 16 bits can index
+			n = 65530 + t.Intn(140000)
+		}
 		b := t.Bulk()
 		h.prior = make([]byte, n)
 		for i := range h.prior {
